@@ -107,8 +107,14 @@ fn op_create(name: &[u8], tracker: &[u8], len: usize, seed: u64) -> String {
     let name_s = String::from_utf8(name.to_vec()).expect("utf-8 file name");
     let tracker_s = String::from_utf8(tracker.to_vec()).expect("utf-8 tracker url");
     let path = dir.join("src").join(&name_s);
-    std::fs::write(&path, pattern(len, seed)).unwrap();
     std::env::set_current_dir(&dir).unwrap();
+    if seed % 3 == 0 {
+        // an earlier torrent of a longer version of the file (with a longer tracker URL) is already there: creating the
+        // torrent again must replace it, whatever its size
+        std::fs::write(&path, pattern(len + 2 * 262144 + 17, seed + 1)).unwrap();
+        let _ = catch(|| Metainfo::create_file(&path, &(tracker_s.clone() + "/a/much/longer/announce/path")));
+    }
+    std::fs::write(&path, pattern(len, seed)).unwrap();
     let r = catch(|| Metainfo::create_file(&path, &tracker_s));
     let out = match r {
         Err(()) => "P".to_string(),
